@@ -150,6 +150,13 @@ func verifHarness_commitmentChallengeConsistency() {
 	w := make(fr.Vector, nPub)
 	copy(w, verifPublic)
 	hv := &verifHash{size: size}
+	if SHAREDHASH {
+		// C10 reading: the caller reuses ONE hash object for Prove and the later Verify; the earlier
+		// call must leave no state behind that changes the later one
+		hv = hp
+		hp = &verifHash{size: size, inputs: hv.inputs}
+		hv.inputs = nil
+	}
 	_ = Verify(proof, vk, w, backend.WithVerifierHashToFieldFunction(hv))
 	if !verifMultiExpHit {
 		verifReach("verifier-stopped-early") // subgroup checks etc. may reject first
